@@ -160,6 +160,74 @@ Proof.
 Qed.
 End S.
 
+Section Len.
+Context {A : Type} {O : atom_ops A}.
+Lemma vreorder_go_length_aux (o n : list (val A)) : List.length (vcompute_reorder_indices o n) = List.length n.
+Proof.
+  unfold vcompute_reorder_indices. generalize (index_from 0 (map vreorder_key o)) as u.
+  induction n as [|x t IH]; intros u; cbn [vreorder_go]; [reflexivity|].
+  destruct (vtake_first (vreorder_key x) u) as [[i u']|]; cbn [List.length]; rewrite IH; reflexivity.
+Qed.
+End Len.
+
+(** ** The index list is a matching, as the documentation of computeReorderIndices promises *)
+Section M.
+Context {A : Type} {O : atom_ops A} (L : atom_laws O).
+Notation val := (val A).
+
+Lemma in_taken r i j : In j (taken r i) <-> exists i', i' < i /\ nth_error r i' = Some (Some j).
+Proof.
+  unfold taken. revert i. induction r as [|a t IH]; intros i.
+  - destruct i; cbn; split; try contradiction; intros [i' [_ H]]; destruct i'; discriminate.
+  - destruct i as [|i]; cbn [firstn flat_map].
+    + split; [contradiction | intros [i' [H _]]; lia].
+    + rewrite in_app_iff, IH. split.
+      * intros [H|[i' [H1 H2]]].
+        -- destruct a as [j'|]; cbn in H; [|contradiction]. destruct H as [->|[]]. exists 0. split; [lia | reflexivity].
+        -- exists (S i'). split; [lia | exact H2].
+      * intros [[|i'] [H1 H2]].
+        -- cbn in H2. inversion H2; subst. left. left. reflexivity.
+        -- right. exists i'. split; [lia | exact H2].
+Qed.
+
+Definition is_matching (o n : list val) (idx : list (option nat)) : Prop :=
+  List.length idx = List.length n
+  /\ (forall i j x, nth_error idx i = Some (Some j) -> nth_error n i = Some x ->
+        j < List.length o /\ vreorder_key (nth j o VNull) = vreorder_key x)
+  /\ (forall i i' j, nth_error idx i = Some (Some j) -> nth_error idx i' = Some (Some j) -> i = i')
+  /\ (forall i x j, nth_error idx i = Some None -> nth_error n i = Some x -> j < List.length o ->
+        vreorder_key (nth j o VNull) = vreorder_key x -> exists i', nth_error idx i' = Some (Some j)).
+
+Lemma nth_map_key (o : list val) j : nth j (map vreorder_key o) VNull = vreorder_key (nth j o VNull).
+Proof. change (@VNull A) with (vreorder_key (@VNull A)) at 1. apply map_nth. Qed.
+
+Theorem vreorder_indices_matching (o n : list val) : is_matching o n (vcompute_reorder_indices o n).
+Proof.
+  set (idx := vcompute_reorder_indices o n).
+  assert (Hlen : List.length idx = List.length n) by apply vreorder_go_length_aux.
+  assert (Hspec : forall i x, nth_error n i = Some x ->
+            match nth_error idx i with
+            | Some e => entry_ok (map vreorder_key o) (taken idx i) (vreorder_key x) e
+            | None => False
+            end) by (intros i x; apply (vreorder_indices_spec L)).
+  split; [exact Hlen|]. split; [|split].
+  - intros i j x Hi Hn. specialize (Hspec i x Hn). rewrite Hi in Hspec. cbn [entry_ok] in Hspec.
+    destruct Hspec as [H1 [H2 _]]. rewrite map_length in H1. rewrite nth_map_key in H2. auto.
+  - assert (Hlt : forall i i' j, i < i' -> nth_error idx i = Some (Some j) -> nth_error idx i' = Some (Some j) -> False).
+    { intros i i' j Hlt Hi Hi'.
+      assert (Hx : exists x, nth_error n i' = Some x).
+      { destruct (nth_error n i') eqn:E; [eauto|]. apply nth_error_None in E.
+        assert (i' < List.length idx) by (apply nth_error_Some; congruence). lia. }
+      destruct Hx as [x Hn]. specialize (Hspec i' x Hn). rewrite Hi' in Hspec. cbn [entry_ok] in Hspec.
+      destruct Hspec as [_ [_ [H3 _]]]. apply H3. apply in_taken. exists i. auto. }
+    intros i i' j Hi Hi'. destruct (Nat.lt_trichotomy i i') as [H|[H|H]]; [exfalso; eapply Hlt; eauto | exact H | exfalso; eapply Hlt; eauto].
+  - intros i x j Hi Hn Hj Hk. specialize (Hspec i x Hn). rewrite Hi in Hspec. cbn [entry_ok] in Hspec.
+    assert (Hin : In j (taken idx i)).
+    { apply Hspec; [rewrite map_length; exact Hj | rewrite nth_map_key; exact Hk]. }
+    apply in_taken in Hin as [i' [_ H]]. exists i'. exact H.
+Qed.
+End M.
+
 (** * compressReorderIndices: the run list is the canonical one *)
 Definition expand_run (r : run) : list (option nat) :=
   match r with RNeg => [None] | RRun s c => map Some (seq s c) end.
